@@ -43,6 +43,13 @@ for base, x, y, *rest in cases:
                 res.append([o, code(fn, c(x), UnsignedInteger(y))])
                 continue
             res.append([o, code(fn, c(x), c(y))])
-    out.append([base, x, y, res])
+    plain = []
+    if base != "Bool":
+        # the same operators with a plain Python number written on the left (x op T(y))
+        for o, fn in NUM.items():
+            if o in ("OPow", "OLShift", "ORShift") and not (0 <= y <= 40 and abs(x).bit_length() * max(y, 1) <= 2500):
+                continue
+            plain.append([o, code(fn, x, UnsignedInteger(y) if o in ("OLShift", "ORShift") else c(y))])
+    out.append([base, x, y, res, plain])
 sys.set_int_max_str_digits(0)      # only for printing the results: the DSL above ran under the interpreter's default limit
 json.dump(out, sys.stdout)
